@@ -1,6 +1,8 @@
 package c01
 
 import (
+	"crypto/sha512"
+	"hash"
 	"bytes"
 	nativeEcdsa "crypto/ecdsa"
 	"crypto/elliptic"
@@ -74,10 +76,19 @@ type ecCurve[P curves.Point[P, B, S], B algebra.PrimeFieldElement[B], S algebra.
 	toRef func(P) (curve.FpPoint, error)
 	// native: additionally decide with crypto/ecdsa (P-256)
 	native elliptic.Curve
+	// newHash: the suite's hash (nil = SHA-256). A digest wider than the scalar field exercises the digest-to-scalar rule.
+	newHash func() hash.Hash
+}
+
+func (c *ecCurve[P, B, S]) hasher() func() hash.Hash {
+	if c.newHash != nil {
+		return c.newHash
+	}
+	return sha256.New
 }
 
 func (c *ecCurve[P, B, S]) suite() *ecdsa.Suite[P, B, S] {
-	s, err := ecdsa.NewSuite(c.curve, sha256.New)
+	s, err := ecdsa.NewSuite(c.curve, c.hasher())
 	if err != nil {
 		panic(engine.HarnessError{Msg: err.Error()})
 	}
@@ -90,7 +101,9 @@ func (c *ecCurve[P, B, S]) refVerify(pk P, raw []byte, sg *ecdsa.Signature[S]) (
 	if err != nil || P0.Inf {
 		return false, fmt.Sprintf("public key is not a finite point of the reference curve: %v", err)
 	}
-	digest := sha256.Sum256(raw)
+	hh := c.hasher()()
+	hh.Write(raw)
+	digest := hh.Sum(nil)
 	r, s := conv.ToBig(sg.R()), conv.ToBig(sg.S())
 	if !sig.ECDSAVerifyV(c.ref, P0, digest[:], r, s, sg.V()) {
 		return false, fmt.Sprintf("ECDSA verification (SEC 1 4.1.4%s) fails for r=%x s=%x v=%v", map[bool]string{true: " + public-key recovery with v", false: ""}[sg.V() != nil], r, s, vStr(sg.V()))
@@ -335,11 +348,15 @@ var (
 		name: "k256", curve: k256.NewCurve(), ref: libcurve.K256().Ref, toRef: libcurve.K256().TryToRef}}
 	ecP256 = &ecRunner[*p256.Point, *p256.BaseFieldElement, *p256.Scalar]{&ecCurve[*p256.Point, *p256.BaseFieldElement, *p256.Scalar]{
 		name: "p256", curve: p256.NewCurve(), ref: libcurve.P256().Ref, toRef: libcurve.P256().TryToRef, native: elliptic.P256()}}
+	ecK256SHA512 = &ecRunner[*k256.Point, *k256.BaseFieldElement, *k256.Scalar]{&ecCurve[*k256.Point, *k256.BaseFieldElement, *k256.Scalar]{
+		name: "k256-sha512", curve: k256.NewCurve(), ref: libcurve.K256().Ref, toRef: libcurve.K256().TryToRef, newHash: sha512.New}}
 )
 
 func runEC(x *engine.X, c ecCase) {
 	if c.curve == "p256" {
 		ecP256.run(x, c)
+	} else if c.curve == "k256-sha512" {
+		ecK256SHA512.run(x, c)
 	} else {
 		ecK256.run(x, c)
 	}
@@ -367,6 +384,15 @@ func ecCases() []ecCase {
 		for _, api := range []int{apiRounds, apiRunner} {
 			add(ecCase{proto: "dkls23-bbot", curve: "k256", s: t23, a: ord(t23), kg: "dealer", q: q12, msg: 1, api: api})
 			add(ecCase{proto: "dkls23-softspoken", curve: "p256", s: t23, a: ord(t23), kg: "dealer", q: q12, msg: 4, api: api})
+			if api == apiRounds {
+				// a hash wider than the scalar field (SHA-512 on secp256k1): the digest-to-scalar conversion matters
+				add(ecCase{proto: "dkls23-bbot", curve: "k256-sha512", s: t23, a: ord(t23), kg: "dealer", q: q12, msg: 1, api: api})
+				add(ecCase{proto: "lindell17", curve: "k256-sha512", s: t23, a: ord(t23), kg: "dealer", q: q12, order: 0, msg: 3, api: api})
+			}
+			if api == apiRunner {
+				// a non-minimal quorum: with three cosigners the rounds of different pairs overlap on the routers
+				add(ecCase{proto: "dkls23-softspoken", curve: "k256", s: t23, a: ord(t23), kg: "dealer", q: 0b111, msg: 2, api: api})
+			}
 			add(ecCase{proto: "lindell17", curve: "k256", s: t23, a: ord(t23), kg: "dealer", q: q12, order: api, msg: 3, api: api})
 			add(ecCase{proto: "cggmp21", curve: "k256", s: t23, a: ord(t23), kg: "dealer", q: q12, msg: 2, api: api})
 		}
